@@ -49,7 +49,8 @@ type jsonRow struct {
 }
 
 var strPool = []string{"", "a", "plain text", "with,comma", `with "quotes"`, "multi\nline", " leading", "trailing ", "ünï©ødé ✓", `""`, ",", "\n", `a,"b",c`, "tab\there", "'single'", "#hash", "null", "0", "-1.5e3", "true",
-	"bell\a", "\v", "del\x7f", "nul\x00mid", "\u2028line", "tag\U000E0001", `back\slash`, "<a href='x'>&amp;</a>", "\u00a0nbsp", "#", "\ufeffbom"}
+	"bell\a", "\v", "del\x7f", "nul\x00mid", "\u2028line", "tag\U000E0001", `back\slash`, "<a href='x'>&amp;</a>", "\u00a0nbsp", "#", "\ufeffbom",
+	"first\rsecond", "\rlead", "a\r\rb"} // a carriage return not followed by a line feed is data (CR LF pairs are normalised by encoding/csv and stay out)
 var f64Pool = []float64{0, math.Copysign(0, -1), 1, -1, 0.1, 1.0 / 3, math.MaxFloat64, -math.MaxFloat64, math.SmallestNonzeroFloat64, 5e-324, 1e21, 1e-7, 123456789.123456789, math.Inf(1), math.Inf(-1), math.Pi}
 var f32Pool = []float32{0, 1, -1, 0.1, 1.0 / 3, math.MaxFloat32, math.SmallestNonzeroFloat32, 16777217, 1e-10}
 
